@@ -1,6 +1,9 @@
 import ApolloModel.Proofs.Execution
 import ApolloModel.Proofs.ExecutionSpec2
 import ApolloModel.Proofs.ExecutionFuel
+import ApolloModel.Proofs.ExecutionFuelFrag
+import ApolloModel.Proofs.ExecutionNull
+import ApolloModel.Proofs.ExecutionKeys
 /-
 C26 — Execution follows the GraphQL execution algorithm.
 
@@ -192,7 +195,8 @@ theorem exec_fuel_sufficient_partial (env : Env) (sels : List Sel) (fuel : Nat)
     execute fuel env sels ≠ .outOfFuel :=
   execute_fuel_sufficient env sels fuel hns hc hfuel
 
-/-- the full fuel statement (fragment spreads included, fragments acyclic); not proved -/
+/-- the fuel statement WITHOUT an acyclicity hypothesis: false (`exec_fuel_statement_needs_acyclicity`); the
+    theorem with the hypothesis is `exec_fuel_sufficient` below -/
 def exec_fuel_sufficient_statement : Prop :=
   ∀ (env : Env) (sels : List Sel), ∃ fuel cfuel, ∀ fuel' ≥ fuel, ∀ cfuel' ≥ cfuel,
     execute fuel' { env with cfuel := cfuel' } sels ≠ .outOfFuel
@@ -204,5 +208,158 @@ example : dataOf (ExecSpec.execute { ExecSpec.Choices.apollo with itemStreamErro
       (envT [((0, "f"), .list [.leaf (.int 42), .error])]) [fieldSel "f" []]) = some (some [("f", .arr [.int 42, .null])]) := rfl
 example : dataOf (execute 10 (envT [((0, "f"), .list [.leaf (.int 42), .error])]) [fieldSel "f" []]) =
     some (some [("f", .null)]) := rfl
+
+/-! ### growth: fuel sufficiency with fragment spreads -/
+
+/-- **Fuel sufficiency.**  For every schema, operation (fragment spreads included), variables and resolver
+    world, if the fragment table is acyclic — a rank function under which every spread inside a fragment's body,
+    at any nesting, names a fragment of smaller rank: what the validation rule "fragment spreads must not form
+    cycles" guarantees — then with at least `cfuelBound` of `collect_fields` fuel
+    (selection nodes + (levels + 2) × total fragment size + 1) and at least `fuelBound` of `complete_value` fuel
+    ((levels + 1) × (deepest field type + 1) + 1), `levels` = `Sel.mL` = the nesting depth of fields after
+    fragment expansion, the executor model never answers out-of-fuel.  The world needs no hypothesis: object
+    graphs may be cyclic, lists of any length, values of any wrong shape.  Hence `model_eq_spec` and every
+    theorem above speak about real responses for every valid document. -/
+theorem exec_fuel_sufficient (env : Env) (rank : String → Nat) (hac : Acyclic env.frags rank) (sels : List Sel) :
+    ∀ fuel, fuelBound env.schema env.frags rank sels ≤ fuel → ∀ cfuel, cfuelBound env.frags rank sels ≤ cfuel →
+      execute fuel { env with cfuel := cfuel } sels ≠ .outOfFuel :=
+  fun fuel hf cfuel hc => execute_fuel_sufficientR { env with cfuel := cfuel } rank hac sels fuel hc hf
+
+/-- … and the reference executor of the specification does not either (`model_eq_spec`). -/
+theorem spec_fuel_sufficient (env : Env) (rank : String → Nat) (hac : Acyclic env.frags rank) (sels : List Sel)
+    (fuel : Nat) (hf : fuelBound env.schema env.frags rank sels ≤ fuel) (cfuel : Nat)
+    (hc : cfuelBound env.frags rank sels ≤ cfuel) :
+    ExecSpec.execute ExecSpec.Choices.apollo fuel { env with cfuel := cfuel } sels ≠ .outOfFuel := by
+  rw [← model_eq_spec]; exact exec_fuel_sufficient env rank hac sels fuel hf cfuel hc
+
+/-- `fragment F on Query { o { ...F } }` over a world in which `o` of object 0 is object 0 again -/
+def envCyc (cfuel : Nat) : Env :=
+  { schema := schemaT, frags := [("F", ⟨"Query", [fieldSel "o" [.spread "F" noDirs]]⟩)], vars := [],
+    world := [((0, "o"), .object "Query" 0)], cfuel := cfuel }
+
+def cycFields : List Sel := [fieldSel "o" [.spread "F" noDirs]]
+
+theorem collect_cyc (c : Nat) : collectFields (envCyc (c + 3)) "Query" (c + 3) [.spread "F" noDirs] [] [] =
+    some (["F"], [("o", cycFields)]) := by
+  simp [collectFields, envCyc, excluded, evalIf, Sel.dirs, noDirs, AList.get?, fragmentApplies, Schema.kind?, schemaT,
+    fieldSel, pushGroup, Sel.responseKey, cycFields]
+
+theorem cyc_always_out_of_fuel (c : Nat) : ∀ (n : Nat) (path : Path) (st : St),
+    completeValue (envCyc (c + 3)) n path (.named "Query") (.object "Query" 0) cycFields st = (.error .fuel, st) := by
+  intro n
+  induction n with
+  | zero => intro path st; rfl
+  | succ n ih =>
+    intro path st
+    have hsub : subSelections cycFields = [.spread "F" noDirs] := rfl
+    have hk : (envCyc (c + 3)).schema.kind? "Query" = some (.object ⟨[], schemaT.objects.head!.2.fields⟩) := rfl
+    simp only [completeValue, Ty.shape, hk, resolveObjectType, beq_self_eq_true, if_true, execSelSet, hsub]
+    have hc : collectFields (envCyc (c + 3)) "Query" (envCyc (c + 3)).cfuel [.spread "F" noDirs] [] [] =
+        some (["F"], [("o", cycFields)]) := collect_cyc c
+    rw [hc]
+    have htf : (envCyc (c + 3)).schema.typeField? "Query" "o" = some { name := "o", args := [], ty := .named "Query" } := rfl
+    have hrec := ih (path ++ [.key "o"]) st
+    simp only [execGroups, cycFields, fieldSel, Sel.fname, htf, execField, Sel.fargs, coerceArgs]
+    simp only [cycFields, fieldSel] at hrec
+    have hw : (envCyc (c + 3)).world.get? 0 "o" = some (.object "Query" 0) := rfl
+    simp [hw, hrec, tryNullify]
+
+/-- the acyclicity hypothesis is needed: with a cyclic fragment (and a cyclic world) the executor runs out of
+    fuel at EVERY fuel and every `collect_fields` fuel ≥ 3 -/
+theorem cyclic_fragment_out_of_fuel_at_every_fuel (c n : Nat) :
+    execute n (envCyc (c + 3)) [.spread "F" noDirs] = .outOfFuel := by
+  have key : dataOf (execute n (envCyc (c + 3)) [.spread "F" noDirs]) = none := by
+    unfold execute
+    simp only [execSelSet]
+    have hc : collectFields (envCyc (c + 3)) (envCyc (c + 3)).schema.query (envCyc (c + 3)).cfuel [.spread "F" noDirs] [] [] =
+        some (["F"], [("o", cycFields)]) := collect_cyc c
+    rw [hc]
+    have htf : (envCyc (c + 3)).schema.typeField? (envCyc (c + 3)).schema.query "o" = some { name := "o", args := [], ty := .named "Query" } := rfl
+    have hrec := cyc_always_out_of_fuel c n [.key "o"] { errors := [] }
+    simp only [execGroups, cycFields, fieldSel, Sel.fname, htf, execField, Sel.fargs, coerceArgs]
+    simp only [cycFields, fieldSel] at hrec
+    have hw : (envCyc (c + 3)).world.get? 0 "o" = some (.object "Query" 0) := rfl
+    simp [hw, hrec, tryNullify, dataOf]
+  cases h : execute n (envCyc (c + 3)) [.spread "F" noDirs] with
+  | outOfFuel => rfl
+  | response r => rw [h] at key; simp [dataOf] at key
+
+/-- so the statement without the hypothesis (the former `def`) is false -/
+theorem exec_fuel_statement_needs_acyclicity : ¬ exec_fuel_sufficient_statement := by
+  intro h
+  obtain ⟨fuel, cfuel, hall⟩ := h (envCyc 3) [.spread "F" noDirs]
+  exact hall fuel (Nat.le_refl _) (cfuel + 3) (by omega) (cyclic_fragment_out_of_fuel_at_every_fuel cfuel fuel)
+
+-- the same fragment over an acyclic table is fine, and the bounds are computable
+example : fuelBound schemaT [("F", ⟨"Query", [fieldSel "o" [fieldSel "f" []]]⟩)] (fun _ => 0) [.spread "F" noDirs] = 7 := by decide
+example : cfuelBound [("F", ⟨"Query", [fieldSel "o" [fieldSel "f" []]]⟩)] (fun _ => 0) [.spread "F" noDirs] = 10 := by decide
+
+/-! ### growth: every error path leads to a null -/
+
+/-- **Every recorded error path leads to a `null` in `data`**: for every response of the executor model — any
+    schema, operation, variables, fuel, and any world that does not put `skip` inside a list — `data` itself is
+    null, or walking `data` along the error's path (field keys AND list indices) reaches `null` at the path's
+    position or at a proper prefix of it: the nearest nullable ancestor, where the error was caught.
+    (The converse direction is `propagation_has_error` / `data_null_iff_root_propagation`.) -/
+theorem error_path_leads_to_null (fuel : Nat) (env : Env) (hw : WorldClean env.world) (sels : List Sel)
+    (r : Response) (h : execute fuel env sels = .response r) :
+    ∀ p, p ∈ r.errors → match r.data with
+      | none => True
+      | some m => LeadsNull (.obj m) p :=
+  execute_error_paths_lead_to_null fuel env hw sels r h
+
+/-- the same for the specification's reference executor -/
+theorem spec_error_path_leads_to_null (fuel : Nat) (env : Env) (hw : WorldClean env.world) (sels : List Sel)
+    (r : Response) (h : ExecSpec.execute ExecSpec.Choices.apollo fuel env sels = .response r) :
+    ∀ p, p ∈ r.errors → match r.data with
+      | none => True
+      | some m => LeadsNull (.obj m) p := by
+  rw [← model_eq_spec] at h; exact error_path_leads_to_null fuel env hw sels r h
+
+/-- the hypothesis on the world is needed, and it is the code's behaviour: `SkipForPartialExecution` as a list
+    ITEM drops the item but still advances the index, so `f = [skip, "x"]` at `[Int]` answers `{"f": [null]}`
+    with the error path `["f", 1]` — index 1 does not exist in the output -/
+theorem skip_item_shifts_indices :
+    dataOf (execute 10 (envT [((0, "f"), .list [.skip, .leaf (.str "x")])]) [fieldSel "f" []]) = some (some [("f", .arr [.null])]) ∧
+    errorsOf (execute 10 (envT [((0, "f"), .list [.skip, .leaf (.str "x")])]) [fieldSel "f" []]) = [[.key "f", .idx 1]] := by
+  constructor <;> rfl
+
+/-- when two sibling non-null fields both fail, only the FIRST is recorded: the loop of `execute_selection_set`
+    returns at the first propagation (`g`'s resolver error is never reached) -/
+theorem sibling_failures_first_only :
+    errorsOf (execute 10 (envT [((0, "q"), .error), ((0, "g"), .error)]) [fieldSel "q" [fieldSel "f" []], fieldSel "g" []])
+      = [[.key "q"]] ∧
+    dataOf (execute 10 (envT [((0, "q"), .error), ((0, "g"), .error)]) [fieldSel "q" [fieldSel "f" []], fieldSel "g" []])
+      = some none := by
+  constructor <;> rfl
+
+/-- each failed position reports once: stated, not proved (every call pushes its own path at most once and
+    the item / group loops run at distinct indices / keys) -/
+def errors_paths_distinct_positions : Prop :=
+  ∀ (fuel : Nat) (env : Env) (sels : List Sel) (r : Response), execute fuel env sels = .response r → r.errors.Nodup
+
+/-! ### growth: response shape -/
+
+/-- **Response keys, at every depth.**  Every object in `data` is produced by completing an object value; its
+    keys are, in order, response keys of CollectFields for the RUNTIME object type over the merged sub-selections
+    of the fields it answers — exactly those whose field produced a value (a field resolved to `skip`, or a
+    field the schema does not know, leaves no key). -/
+theorem response_keys_spec (env : Env) (n : Nat) (path : Path) (ty : Ty) (resolvedTy : String) (id : Nat)
+    (fields : List Sel) (st : St) (m : AList Json) (st' : St)
+    (h : completeValue env (n + 1) path ty (.object resolvedTy id) fields st = (.ok (some (.obj m)), st')) :
+    ∃ v g, collectFields env resolvedTy env.cfuel (subSelections fields) [] [] = some (v, g) ∧
+      (AList.keys m).Sublist (keysOf g) :=
+  completeValue_object_keys env n path ty resolvedTy id fields st m st' h
+
+/-- … and the root object of `data`, for the query type over the operation's selection set -/
+theorem response_keys_root (fuel : Nat) (env : Env) (sels : List Sel) (r : Response) (m : AList Json)
+    (h : execute fuel env sels = .response r) (hd : r.data = some m) :
+    ∃ v g, collectFields env env.schema.query env.cfuel sels [] [] = some (v, g) ∧ (AList.keys m).Sublist (keysOf g) :=
+  execute_root_keys fuel env sels r m h hd
+
+/-- the grouped field set has pairwise distinct response keys (so the keys of an object are distinct too) -/
+theorem collected_keys_distinct (env : Env) (objTy : String) (n : Nat) (sels : List Sel) (v : List String)
+    (g : AList (List Sel)) (h : collectFields env objTy n sels [] [] = some (v, g)) : (keysOf g).Nodup :=
+  collect_keys_nodup env objTy n sels [] [] v g h (by simp [keysOf])
 
 end Apollo.C26
